@@ -158,6 +158,9 @@ unsafe impl GlobalAlloc for SimAlloc {
         if !p.is_null() && ATTR.with(|a| a.get()) && !BUSY.with(|b| b.replace(true)) {
             TRACKER.with(|t| {
                 if t.insert(p as usize, layout.size()) {
+                    if TRACE_SIZE.with(|t| t.get()) == layout.size() {
+                        eprintln!("[alloc {}]\n{}", layout.size(), std::backtrace::Backtrace::force_capture());
+                    }
                     LIVE_BYTES.with(|c| {
                         let n = c.get() + layout.size() as i64;
                         c.set(n);
@@ -229,6 +232,50 @@ pub fn suspend() -> bool {
 #[inline]
 pub fn resume(saved: bool) {
     ATTR.with(|a| a.set(saved))
+}
+
+/// Sizes of the attributed blocks that are still live (diagnostics for C17).
+pub fn survivors() -> Vec<usize> {
+    BUSY.with(|b| b.set(true));
+    let mut out = Vec::new();
+    TRACKER.with(|t| unsafe {
+        let k = t.keys.get();
+        let v = t.vals.get();
+        if !k.is_null() {
+            for i in 0..TABLE_SIZE {
+                if *k.add(i) != 0 {
+                    out.push(*v.add(i) as usize);
+                }
+            }
+        }
+    });
+    BUSY.with(|b| b.set(false));
+    out.sort_unstable();
+    out
+}
+
+thread_local! {
+    static TRACE_SIZE: Cell<usize> = const { Cell::new(0) };
+}
+/// Print a backtrace whenever an attributed block of exactly this size is allocated.
+pub fn trace_size(sz: usize) {
+    TRACE_SIZE.with(|t| t.set(sz));
+}
+
+/// RAII guard: harness / runtime bookkeeping done in the middle of a queue API call must not
+/// be attributed to the queue.
+pub struct NoAttr(bool);
+impl NoAttr {
+    #[inline]
+    pub fn new() -> NoAttr {
+        NoAttr(suspend())
+    }
+}
+impl Drop for NoAttr {
+    #[inline]
+    fn drop(&mut self) {
+        resume(self.0)
+    }
 }
 
 pub fn live_bytes() -> i64 {
